@@ -842,6 +842,12 @@ def executeBody (optimize : Bool) (stm : Stm) (body : List BLit) : M Stm := do
   let gv1 ← liftBinding (globalVarsInsideBody body)
   let gv2 ← liftBinding (globalVarsInsideBody newbody)
   let needed := vUnion needed (vInter (vDiff gv1 gv2) allvars)
+  -- fix (known_findings.json `fixed:`): a global variable used inside the elements of an aggregate handed to sympy is needed
+  let aggElemVars := (gb.equalities.map (·.1)).flatMap fun k =>
+    match k with
+    | .lit (_, .bagg _ _ _ _ es _) => es.flatMap fun e => e.1.flatMap Term.vars ++ (litsTerms e.2).flatMap Term.vars
+    | _ => []
+  let needed := vUnion needed (vInter (vOfList aggElemVars) gv1)
   let r ← tryPy (do
     let newConds ← simplifyEqualities gb needed unbound
     newConds.mapM (placeCond isRule isConstraint (gb.equalities.map (·.1)) ac))
